@@ -1,6 +1,7 @@
 use std::io::Cursor;
 use std::sync::Arc;
 use std::sync::Mutex;
+use std::sync::PoisonError;
 use std::time::Duration;
 
 use anyhow::anyhow;
@@ -45,16 +46,15 @@ impl<const N: usize> Context<N> {
         if nonce.is_empty() {
             return false;
         }
-        match self.nonce_cache.try_lock() {
-            Ok(mut set) => set.get(nonce).is_some(),
-            Err(_) => false,
-        }
+        // wait for the cache: skipping the lookup while another connection holds it would let a replayed copy through
+        let mut set = self.nonce_cache.lock().unwrap_or_else(PoisonError::into_inner);
+        set.get(nonce).is_some()
     }
 
-    pub fn set_nonce(&self, nonce: [u8; N]) {
-        if let Ok(mut set) = self.nonce_cache.try_lock() {
-            set.insert(nonce, ());
-        }
+    /// records the salt; `false` when it is already there (a copy of the same request got here first)
+    pub fn set_nonce(&self, nonce: [u8; N]) -> bool {
+        let mut set = self.nonce_cache.lock().unwrap_or_else(PoisonError::into_inner);
+        set.insert(nonce, ()).is_none()
     }
 }
 
@@ -220,7 +220,9 @@ impl<const N: usize> AEADCipherCodec<N> {
         };
         let length = header.get_u16() as usize;
         if _src.remaining() >= length + tag_size {
-            context.set_nonce(salt);
+            if !context.set_nonce(salt) {
+                bail!("detected repeated nonce salt {:?}", salt);
+            }
             let position = _src.position();
             let src = _src.into_inner();
             src.advance(position as usize);
